@@ -12,7 +12,7 @@ HFUNCS = {}
 class HFunc:
     def __init__(self, file, qual, args, requires=(), modifies=(), ensures=(), raises_when=None, raises_ensures=(),
                  raises_only_when=None, invariants=None, uses=(), props=(), returns=None, notes='', ghost=None, axioms=(),
-                 callee=None, list_attrs=(), dict_attrs=(), timeout=None, decreases=None, varargs=None, refs=(), oid_suffix='', numeric_int=False, axiom_sets=None, cases=(), opaque_mul=False):
+                 callee=None, list_attrs=(), dict_attrs=(), timeout=None, decreases=None, varargs=None, refs=(), oid_suffix='', numeric_int=False, axiom_sets=None, cases=(), opaque_mul=False, plain_attrs=(), uf_mod=False):
         self.file = file; self.qual = qual; self.args = list(args)
         self.requires = list(requires); self.modifies = list(modifies); self.ensures = list(ensures)
         self.raises_when = raises_when            # condition (pre-state) under which the function must raise ("iff")
@@ -27,6 +27,7 @@ class HFunc:
         self.varargs = varargs                    # *args bound to a tuple of this many arbitrary values (one proof per arity)
         self.refs = list(refs)                    # arguments that are object references (new objects differ from them)
         self.oid_suffix = oid_suffix; self.numeric_int = numeric_int
+        self.plain_attrs = list(plain_attrs); self.uf_mod = uf_mod
         self.opaque_mul = opaque_mul              # products of two symbolic terms abstracted to an uninterpreted function with sign / unit facts
         self.cases = list(cases)                  # proof by cases on these pre-state conditions (all polarity combinations), tried when the direct proof fails
         self.axiom_sets = axiom_sets              # smaller axiom selections tried first (quantifier instantiation stays cheap); the full list is always tried last
@@ -57,7 +58,7 @@ def gen(f):
     fdef, src = symexec.get_function(path, f.qual)
     contracts = {k: CALLEES.get(k, True) for k in f.uses}
     contracts['__methods__'] = [k[2:] for k in f.uses if k.startswith('m:')] + [k[4:] for k in f.uses if k.startswith('acc:')]
-    ex = HeapExec(contracts=contracts, loop_invariants=f.invariants, list_attrs=f.list_attrs, dict_attrs=f.dict_attrs, ghost=f.ghost)
+    ex = HeapExec(contracts=contracts, loop_invariants=f.invariants, list_attrs=f.list_attrs, dict_attrs=f.dict_attrs, ghost=f.ghost, plain_attrs=f.plain_attrs)
     st = State()
     argnames = [a.arg for a in fdef.args.args]
     if argnames != f.args:
@@ -166,9 +167,12 @@ def case_split(hy, goal, timeout_s):
     fv = ir.free_vars(goal)
     cands = [t for n, t in fv.items() if t.op == 'var' and '_it' in n and n not in names]
     t0 = time.time()
+    budget = 4 * timeout_s          # the tactics together get a bounded share of time per obligation
+    over = lambda: time.time() - t0 > budget
     for b in names:
         bv = ir.var(b)
         for c in cands:
+            if over(): return None
             part1 = ir.forall(names, ir.implies(ir.ne(bv, c), body))
             part2 = ir.forall([n for n in names if n != b], ir.substitute(body, {b: c})) if len(names) > 1 else ir.substitute(body, {b: c})
             v1 = smt.prove(hy, part1, mode='int', timeout_s=timeout_s, use_cvc5=False)
@@ -192,6 +196,7 @@ def case_split(hy, goal, timeout_s):
                 if c_ not in pool and c_.op == 'uf': pool.append(c_)
         for c in pool[:16]:
             if c.op == 'const': continue
+            if over(): return None
             lo = smt.prove(hy, ir.forall(names, ir.implies(ir.lt(bv, c), body)), mode='int', timeout_s=timeout_s, use_cvc5=False)
             if lo.status != 'proved': continue
             hi = smt.prove(hy, ir.forall(names, ir.implies(ir.ge(bv, c), body)), mode='int', timeout_s=timeout_s, use_cvc5=False)
@@ -223,9 +228,14 @@ def verify(f, timeout_s=20):
                 'seconds': round(time.time() - t0, 4), 'function': f.oid,
                 'reason': '; '.join(vac) if vac else 'False is not derivable from the hypotheses (5 s); %d normal / %d raising exits' % (len(rc['normal']), len(rc['raise']))})
     for (cl, hy0, goal) in obls:
+        T = f.timeout or timeout_s
         for aset in meta['axiom_sets']:
             hy = aset + hy0
-            v = smt.prove(hy, goal, mode='int', timeout_s=f.timeout or timeout_s, use_cvc5=False, opaque_mul=f.opaque_mul)
+            # proofs that exist are found within a second or two; a run that wanders off is cut short and repeated under other
+            # seeds before the full budget is spent once
+            v = smt.prove(hy, goal, mode='int', timeout_s=min(T, 8), use_cvc5=False, opaque_mul=f.opaque_mul, retries=3, uf_mod=f.uf_mod)
+            if v.status != 'proved' and T > 8:
+                v = smt.prove(hy, goal, mode='int', timeout_s=T, use_cvc5=False, opaque_mul=f.opaque_mul, retries=1, uf_mod=f.uf_mod)
             if v.status == 'proved': break
         if v.status != 'proved' and goal.op == 'forall':
             v2 = case_split(hy, goal, f.timeout or timeout_s)
@@ -235,7 +245,7 @@ def verify(f, timeout_s=20):
             tc = time.time(); ok = True
             for combo in itertools.product((True, False), repeat=len(meta['cases'])):
                 extra = [c if pos else ir.not_(c) for c, pos in zip(meta['cases'], combo)]
-                vc = smt.prove(hy + extra, goal, mode='int', timeout_s=f.timeout or timeout_s, use_cvc5=False, opaque_mul=f.opaque_mul)
+                vc = smt.prove(hy + extra, goal, mode='int', timeout_s=f.timeout or timeout_s, use_cvc5=False, opaque_mul=f.opaque_mul, uf_mod=f.uf_mod)
                 if vc.status != 'proved': ok = False; break
             if ok:
                 v = smt.Verdict('proved', 'z3', time.time() - tc, mode='int', reason='by cases on %d pre-state conditions' % len(meta['cases']))
